@@ -41,7 +41,6 @@ ObsInit == [ regs |-> << >>,  \* g -> summary of registration number g
              rq   |-> << >>,  \* <<r, tok>> -> type of the latest new request with that key
              req  |-> {},     \* <<r, mid>> of the request datagrams seen (a second copy is a duplicate)
              ex   |-> << >>,  \* <<r, mid>> -> separate notification sent under that message ID
-             tor  |-> {},     \* <<r, t>>: a confirmable message to r gave up at t (everything towards r fails then)
              nchg |-> 0,      \* state changes so far
              cnt  |-> 0,      \* the resource's latest update_observation_count value
              rstnon |-> 0,    \* Resets answering non-confirmable notifications (recorded, not judged)
@@ -59,7 +58,8 @@ NewReg(e, ty, nchg) ==
    lastst |-> -1,          \* state number the last distinct notification was rendered at
    seen |-> {},            \* <<mid, dig>> of its distinct notifications (a repetition is a retransmission)
    cb |-> 0,               \* runs of the cancellation callback
-   cbt |-> -1,             \* when the cancellation callback ran (first time)
+   coll |-> FALSE,         \* the cancellation callback ran at the very instant at which a confirmable message to
+                           \* the registration's endpoint gave up (which fails everything towards that endpoint)
    told |-> FALSE,         \* the application handed it an unsuccessful response at some point (that response
                            \* may be coalesced away, or be dropped with a backlog, so it does not have to
                            \* appear on the wire; but the end of the registration is explained by it)
@@ -95,9 +95,13 @@ TimedOut(o, t, final) ==
                        /\ (final \/ t > o.ex[k].tlast + 2 * o.ex[k].gap)}
 Expire(o, t, final) ==
   LET dead == TimedOut(o, t, final) IN
-  IF dead = {} THEN o
-  ELSE EndAll([CloseEx(o, dead) EXCEPT !.tor = @ \cup {<<k[1], o.ex[k].tlast + 2 * o.ex[k].gap>> : k \in dead}],
-              {o.ex[k].g : k \in dead}, "ConTimeout")
+  IF dead = {} THEN o ELSE EndAll(CloseEx(o, dead), {o.ex[k].g : k \in dead}, "ConTimeout")
+
+\* a confirmable message to r is giving up at instant t (its exchange is still open in the summary: Expire
+\* closes it only when a later instant is seen)
+GivesUpAt(o, r, t) ==
+  \E k \in DOMAIN o.ex : /\ k[1] = r /\ o.ex[k].open /\ o.ex[k].con /\ o.ex[k].copies = MaxRetransmit + 1
+                          /\ t = o.ex[k].tlast + 2 * o.ex[k].gap
 
 (* ---- rx ------------------------------------------------------------------ *)
 ObsRx(o, e) ==
@@ -190,7 +194,7 @@ ObsAccept(o, e) ==
 
 ObsCancelCb(o, e) ==
   IF ~Has(o.regs, e.g) THEN Flag(o, "MON_CancelWithoutAccept")
-  ELSE FlagIf([o EXCEPT !.regs[e.g].cb = @ + 1, !.regs[e.g].cbt = IF @ = -1 THEN e.t ELSE @], o.regs[e.g].cb >= 1, "C08_CancelCallbackOnce" \o Detail(o.regs[e.g]))
+  ELSE FlagIf([o EXCEPT !.regs[e.g].cb = @ + 1, !.regs[e.g].coll = @ \/ GivesUpAt(o, o.regs[e.g].r, e.t)], o.regs[e.g].cb >= 1, "C08_CancelCallbackOnce" \o Detail(o.regs[e.g]))
 
 ObsObsCount(o, e) == [o EXCEPT !.cnt = e.n]
 
@@ -211,7 +215,7 @@ EndBadOf(o, g) ==
   \* observer still counts on it.  Explained only by what fails everything towards the endpoint -- a
   \* confirmable message to it gave up at that very instant (transport error and shutdown are causes of
   \* their own) -- or by an unsuccessful response the application handed to it.
-  \cup (IF R.phase = "active" /\ R.cb >= 1 /\ ~R.told /\ <<R.r, R.cbt>> \notin o.tor
+  \cup (IF R.phase = "active" /\ R.cb >= 1 /\ ~R.told /\ ~R.coll
           THEN {"C08_EndsOnlyForCause" \o Detail(R)} ELSE {})
 
 Live(o) == {g \in DOMAIN o.regs : o.regs[g].phase # "ended" /\ o.regs[g].cb = 0}
